@@ -318,10 +318,24 @@ func checkProbe(c *Check) {
 		nRet++
 		k := func(x string) string { return nthKey("answer", nRet) + ":" + x }
 		// #1: unreachable > 0
-		ok1 := a1.Op == "bin" && a1.Name == ">" && a1.Args[1].IsConst("0")
+		// unreachable > 0, in any spelling (0 < n, n >= 1, n != 0, !(n <= 0) …)
+		var unreach *Term
+		if x, y, op, okc := cmpTerm(a1); okc {
+			switch {
+			case op == "<" && x.IsConst("0"):
+				unreach = y
+			case op == "<=" && x.IsConst("1"):
+				unreach = y
+			case op == "!=" && y.IsConst("0"):
+				unreach = x
+			case op == "!=" && x.IsConst("0"):
+				unreach = y
+			}
+		}
+		ok1 := unreach != nil
 		c.Req(ok1, name, p.InstrPos(r), k("unreachable"), "'some replica unreachable' is 'unreachable count > 0'", "is "+a1.String())
 		if ok1 {
-			incs := counterIncs(a1.Args[0])
+			incs := counterIncs(unreach)
 			c.Req(len(incs) >= 1, name, p.InstrPos(r), k("unreachable:counter"), "the unreachable count is a counter", "")
 			for j, in := range incs {
 				c.Gate(fa, in, k(nthKey("unreachable:inc", j+1)), "a host counts as unreachable only on a deadline error", func(l Lit) bool {
@@ -332,19 +346,21 @@ func checkProbe(c *Check) {
 		if a0.IsConst("false") {
 			continue // local semi-sync status unreadable: not live
 		}
-		ok0 := a0.Op == "bin" && a0.Name == ">="
+		// live >= required, in any spelling: normal form required <= live
+		reqT, liveT, op0, okc0 := cmpTerm(a0)
+		ok0 := okc0 && op0 == "<="
 		c.Req(ok0, name, p.InstrPos(r), k("live"), "'live group' is 'live count >= required'", "is "+a0.String())
 		if !ok0 {
 			continue
 		}
-		incs := counterIncs(a0.Args[0])
+		incs := counterIncs(liveT)
 		c.Req(len(incs) >= 1, name, p.InstrPos(r), k("live:counter"), "the live count is a counter", "")
 		for j, in := range incs {
 			c.Gate(fa, in, k(nthKey("live:inc", j+1)), "a host counts as live only if its probe returned nil", func(l Lit) bool {
 				return l.T.Op == "isnil" && l.Pos && errOf(l.T.Args[0])
 			})
 		}
-		req := a0.Args[1]
+		req := reqT
 		semi, _ := fa.Gated(r, FieldLit(true, "SemiSync"))
 		if semi {
 			okr := req.IsField("WaitSlaveCount") && ResultOf(req.Args[0], 0) != nil && p.IsCall(ResultOf(req.Args[0], 0), "(*mysql.Node).SemiSyncStatus") && ResultOf(req.Args[0], 0).Args[0].V == ssa.Value(f.Params[1])
